@@ -1,11 +1,11 @@
 """C07: helper functions vs URL-level functions on the same symbolic input."""
-from pysx.api import sym_str, cat
+from pysx.api import sym_str, cat, HEXDOM
 from pysx.harness import run_prop
 from spec import c07 as S
 from checks.nskel import SKELETONS
 
 BOUNDS = {
-    "quick": "18 shared URL skeletons with holes of length 0..1 (0..2 for host / query-key / redirect / no-scheme holes) + 5 host skeletons with holes of length 0..2, over all code points; options normalize_amp / strip_suffix / suffix_aware / infer_redirection in {F,T}",
+    "quick": "18 shared URL skeletons with holes of length 0..1 (0..2 for two host holes and the path hole after a '%') + 5 host skeletons with holes of length 0..2, over all code points; options normalize_amp / strip_suffix / suffix_aware / infer_redirection in {F,T}",
     "thorough": "holes of length 0..3 (host skeletons 0..4)",
 }
 STUBS = ["see C01"]
@@ -16,7 +16,7 @@ HOSTS = [("lang", "fr-", ".facebook.com"), ("www", "www.", "x.co.uk"), ("amp", "
 
 def urls(st, skel, n, flag):
     name, pre, post = SKELETONS[skel]
-    u = cat(pre, sym_str(st, "s", n), post)
+    u = cat(pre, sym_str(st, "s", n, HEXDOM if name.startswith("path-escape") else None), post)
     run_prop(st, "normalized_hostname_of_url", S.normalized_hostname_of_url, u, flag, not flag)
     run_prop(st, "fingerprinted_hostname_of_url", S.fingerprinted_hostname_of_url, u, flag, True)
     run_prop(st, "canonicalized_stems", S.canonicalized_stems, u, flag)
@@ -42,7 +42,7 @@ def hosts(st, i, n, flag):
     run_prop(st, "fingerprinted_hostname_of_host", S.fingerprinted_hostname_of_host, h, not flag)
 
 
-N2 = ("path-escape-index", "path-escape-amp", "youtube-lang", "host-prefix", "host-mid", "host-suffix", "query-key", "redirect", "no-scheme")
+N2 = ("host-prefix", "host-suffix", "path-escape-index")
 
 
 def items(tier):
@@ -52,7 +52,7 @@ def items(tier):
         nmax = (2 if SKELETONS[i][0] in N2 else 1) if quick else 3
         for n in range(0, nmax + 1):
             for flag in (False, True):
-                if quick and n == 2 and flag != (i % 2 == 0):
+                if quick and n >= 1 and flag != (i % 2 == 0):
                     continue
                 it = {"fn": "urls", "params": {"skel": i, "n": n, "flag": flag}, "name": "%s n=%d flag=%s" % (SKELETONS[i][0], n, flag), "weight": 8 ** n}
                 if n >= 2:
